@@ -187,6 +187,24 @@ func TestVerifBoundedC13(t *testing.T) {
 				t.Fatal(e)
 			}
 		}
+		// ... and those changes are committed as well (one or two further heights), so that the height asked about
+		// is strictly below the tip and is answered from the historical partition of the store
+		for extra, nExtra := 0, 1+rng.Intn(2); extra < nExtra; extra++ {
+			if _, e := sm.Store().(lib.StoreI).Commit(); e != nil {
+				t.Fatal(e)
+			}
+			sm.height++
+			sm.ResetCaches()
+			if extra+1 < nExtra {
+				for i, v := range pop {
+					c := *v
+					c.StakedAmount = stakes[rng.Intn(len(stakes))] + uint64(2*i+1)
+					if e := sm.SetValidator(&c); e != nil {
+						t.Fatal(e)
+					}
+				}
+			}
+		}
 		for round := 0; round < 2; round++ {
 			for _, chain := range chains {
 				wantC, totC := verifC13Reference(pop, chain, false, params.MaxCommitteeSize)
